@@ -45,6 +45,11 @@ func (mh *MessageHandler) FromMsgReader(_ peer.ID, r msgio.Reader) (message.Grap
 
 	ipldGSM, err := ipldbind.BindnodeRegistry.TypeFromBytes(msg, (*ipldbind.GraphSyncMessageRoot)(nil), dagcbor.Decode)
 	if err != nil {
+		if err == io.EOF {
+			// the frame was read in full: running out of bytes inside it is a
+			// malformed message, not the end of the stream
+			err = io.ErrUnexpectedEOF
+		}
 		return message.GraphSyncMessage{}, err
 	}
 	return mh.fromIPLD(ipldGSM.(*ipldbind.GraphSyncMessageRoot))
